@@ -148,7 +148,8 @@ def decide_and_report(M, tier, seed, results, dead, nshards, wall_s):
             lines.append(f"KNOWN-FINDING: property={pid} {e['what']} [key={m}; seen {mech_counts[m]}x this run]")
     replay_paths = []
     seen_mech = set()
-    rdir = os.path.join(VERIF_ROOT, "replays", pid)
+    rbase = os.environ.get("VERIF_EVIDENCE_DIR")
+    rdir = os.path.join(rbase, "replays", pid) if rbase else os.path.join(VERIF_ROOT, "replays", pid)
     os.makedirs(rdir, exist_ok=True)
     for fn in os.listdir(rdir):      # replays belong to one run
         try:
@@ -163,6 +164,8 @@ def decide_and_report(M, tier, seed, results, dead, nshards, wall_s):
         import hashlib
         h = hashlib.sha1(json.dumps(v["inputs"], sort_keys=True, default=str).encode()).hexdigest()[:12]
         rel = os.path.join("replays", pid, f"{v['clause']}-{h}.json")
+        if rbase:
+            rel = os.path.join(rdir, f"{v['clause']}-{h}.json")
         with open(os.path.join(VERIF_ROOT, rel), "w") as f:
             json.dump({"property": pid, "clause": v["clause"], "case": v["k"], "i": v["i"],
                        "seed": v["seed"], "tier": v["tier"], "violations": v["violations"],
@@ -251,8 +254,9 @@ def decide_and_report(M, tier, seed, results, dead, nshards, wall_s):
         "wall_s": round(wall_s, 2),
         "violations": int(n_real),
     }
-    os.makedirs(os.path.join(VERIF_ROOT, "evidence"), exist_ok=True)
-    with open(os.path.join(VERIF_ROOT, "evidence", f"{pid}.json"), "w") as f:
+    evdir = os.environ.get("VERIF_EVIDENCE_DIR") or os.path.join(VERIF_ROOT, "evidence")
+    os.makedirs(evdir, exist_ok=True)
+    with open(os.path.join(evdir, f"{pid}.json"), "w") as f:
         json.dump(strict_json(evidence), f, indent=1)
 
     # ---- print
